@@ -47,6 +47,9 @@ type WorkerPool struct {
 
 	// mutex is used to synchronize access to the WorkerPool.
 	mutex syncutils.RWMutex
+
+	// startMutex is used to serialize calls to Start.
+	startMutex syncutils.Mutex
 }
 
 // New creates a new WorkerPool with the given name and returns it.
@@ -66,11 +69,16 @@ func New(name string, opts ...options.Option[WorkerPool]) *WorkerPool {
 
 // Start starts the WorkerPool.
 func (w *WorkerPool) Start() *WorkerPool {
-	w.mutex.Lock()
-	defer w.mutex.Unlock()
+	// calls to Start are serialized by their own mutex, so that the workers of the previous run can be awaited without
+	// holding the mutex (their tasks may call Submit, which needs the read lock)
+	w.startMutex.Lock()
+	defer w.startMutex.Unlock()
 
 	if !w.isRunning.Load() {
 		w.ShutdownComplete.Wait()
+
+		w.mutex.Lock()
+		defer w.mutex.Unlock()
 
 		w.isRunning.Store(true)
 
@@ -83,12 +91,20 @@ func (w *WorkerPool) Start() *WorkerPool {
 
 // Submit submits a new task to the WorkerPool.
 func (w *WorkerPool) Submit(workerFunc func(), optStackTrace ...string) {
-	if !w.IsRunning() {
-		if w.optPanicOnSubmitAfterShutdown {
-			panic(fmt.Sprintf("worker pool '%s' is not running", w.Name))
-		}
+	if !w.submit(workerFunc, optStackTrace...) && w.optPanicOnSubmitAfterShutdown {
+		panic(fmt.Sprintf("worker pool '%s' is not running", w.Name))
+	}
+}
 
-		return
+// submit counts and queues the task if the WorkerPool is running. The read lock is held from the running-check until
+// the task is queued: Shutdown (which needs the write lock) either happens before, and the task is rejected, or after,
+// and the dispatcher finds the task in the queue. Otherwise a task could be counted but never dispatched.
+func (w *WorkerPool) submit(workerFunc func(), optStackTrace ...string) (accepted bool) {
+	w.mutex.RLock()
+	defer w.mutex.RUnlock()
+
+	if !w.isRunning.Load() {
+		return false
 	}
 
 	verifHookSubmit(w)
@@ -96,6 +112,8 @@ func (w *WorkerPool) Submit(workerFunc func(), optStackTrace ...string) {
 	w.increasePendingTasks()
 
 	w.Queue.Push(newTask(workerFunc, w.decreasePendingTasks, lo.First(optStackTrace)))
+
+	return true
 }
 
 // DebounceFunc returns a function that can be used to submit a task that is canceled if the function is called with a
